@@ -3911,12 +3911,14 @@ class Select(Construct):
     def _build(self, obj, stream, context, path):
         for sc in self.subcons:
             try:
-                data = sc.build(obj, **context)
+                stream2 = io.BytesIO()
+                sc._build(obj, stream2, context, path)
             except ExplicitError:
                 raise
             except Exception:
                 pass
             else:
+                data = stream2.getvalue()
                 stream_write(stream, data, len(data), path)
                 return obj
         raise SelectError("no subconstruct matched: %s" % (obj,), path=path)
